@@ -504,3 +504,56 @@ def dict_update(a, b):
     r = dict(a)
     r.update(b)
     return r
+
+
+# ---------------------------------------------------------------- field assignment (C08)
+
+def type_only_ok(t, v):
+    """the type-only check used for user-defined field types"""
+    if isinstance(t, bv.Nullable):
+        return v is None or type_only_ok_inner(t.validator, v)
+    return type_only_ok_inner(t, v)
+
+
+def type_only_ok_inner(t, v):
+    if isinstance(t, bv.Struct):
+        return struct_type_ok(t, v)
+    return union_type_ok(t, v)
+
+
+def assignable(t, v):
+    """a field of validator t accepts v on assignment"""
+    if is_user_validator(unwrap_nullable(t)):
+        return type_only_ok(t, v)
+    return valid(t, v)
+
+
+def stored_value(a, v):
+    """what the slot holds after a successful assignment"""
+    if a.nullable and v is None:
+        return NOT_SET
+    if a.user_defined:
+        return v
+    return norm(a.validator, v)
+
+
+# ---------------------------------------------------------------- unions (C08)
+
+def hashable_key(x):
+    return not isinstance(x, (list, dict, set))
+
+
+def tag_validator(D, tag):
+    """the validator of tag in D's tag map, None if D has no such tag"""
+    if tag in D._tagmap:
+        return D._tagmap[tag]
+    return None
+
+
+def union_member_ok(t, value):
+    """constructing a union member of validator t with this value"""
+    if isinstance(t, bv.Void):
+        return value is None
+    if isinstance(t, (bv.Struct, bv.Union)):
+        return type_only_ok_inner(t, value)
+    return valid(t, value)
